@@ -83,11 +83,21 @@ func solveObl(vc *VC, o *Obl, dir string, tier string, seed int, idx int) {
 		return
 	}
 	fileNA := file
+	fileNQ := ""
 	if !o.MustSat {
 		o2 := *o
 		o2.NoAxioms = true
 		fileNA = base + "_na.smt2"
 		os.WriteFile(fileNA, []byte(vc.script(&o2)+"(get-model)\n"), 0o644)
+		// quantifier-free variant: no string axioms, quantified assumptions left undefined.
+		// unsat here implies unsat of the full script (it has strictly fewer assumptions).
+		o3 := *o
+		o3.NoAxioms, o3.NoQuant = true, true
+		sc := vc.script(&o3)
+		if sc != vc.script(&o2) {
+			fileNQ = base + "_nq.smt2"
+			os.WriteFile(fileNQ, []byte(sc), 0o644)
+		}
 	}
 	quickT, slowT := 6, 20
 	if tier == "thorough" {
@@ -124,6 +134,14 @@ func solveObl(vc *VC, o *Obl, dir string, tier string, seed int, idx int) {
 			n = 2
 			go func() { ch <- tagged{runSolver(cctx, solvers[0], fileNA, quickT, seed), true} }()
 		}
+		if fileNQ != "" {
+			n++
+			go func() {
+				r := runSolver(cctx, solvers[0], fileNQ, quickT, seed)
+				r.solver = "z3-new(qf)"
+				ch <- tagged{r, true}
+			}()
+		}
 		for i := 0; i < n; i++ {
 			r := <-ch
 			o.Time += r.time
@@ -133,8 +151,10 @@ func solveObl(vc *VC, o *Obl, dir string, tier string, seed int, idx int) {
 			case r.result == "sat" && !r.na:
 				final, decided = r.solveResult, true
 			case r.result == "sat" && r.na:
-				rr := r.solveResult
-				candidate = &rr
+				if candidate == nil || r.solver != "z3-new(qf)" {
+					rr := r.solveResult
+					candidate = &rr
+				}
 			default:
 				if !r.na && !decided {
 					final = r.solveResult
